@@ -244,10 +244,86 @@ def adapter_case(args):
                                    {'min': mn, 'max': mx, 'key': key, 'data': data, 'pieces': [len(x) for x in pcs],
                                     'got': [len(c) for c in got], 'unsplit': [len(c) for c in base]}))
                         break
+    # two streams chunked at the same time by ONE thread (generators advanced alternately): every schedule with
+    # at most MAX_SWITCHES switches between them, on the same adapter object and on two objects
+    L = max(lens)
+    d1, d2 = PATTERNS[0](L), PATTERNS[1 % len(PATTERNS)](L)[::-1]
+    p1 = [d1[:L // 3], d1[L // 3:2 * L // 3], d1[2 * L // 3:]]
+    p2 = [d2[:L // 2], d2[L // 2:]]
+    for same in (True, False):
+        a1 = ad
+        a2 = ad if same else A.gclmulchunker(min_length=mn, max_length=mx)
+        solo = [chunks_of(a1, p1, key), chunks_of(a2, p2, key)]
+        for sched in interleavings(len(solo[0]) + 1, len(solo[1]) + 1, MAX_SWITCHES):
+            n += 1
+            gens = [a1(iter(p1), params=key), a2(iter(p2), params=key)]
+            outs = [[], []]
+            for w in sched:
+                try:
+                    outs[w].append(bytes(next(gens[w])))
+                except StopIteration:
+                    pass
+            for w in (0, 1):
+                outs[w] += [bytes(c) for c in gens[w]]
+            if outs != solo:
+                vs.append((dict(sig0, what='depends-on-earlier-calls', how='two-streams-interleaved-on-one-thread'),
+                           {'min': mn, 'max': mx, 'key': key, 'data': d1, 'data2': d2, 'same_object': same,
+                            'schedule': list(sched), 'interleave': True,
+                            'got': [[len(c) for c in o] for o in outs], 'solo': [[len(c) for c in o] for o in solo]}))
+                break
     return n, len(distinct), vs
 
 
+MAX_SWITCHES = 4
+
+
+def interleavings(n0, n1, max_switches):
+    """All sequences with n0 zeros and n1 ones and at most max_switches changes of value."""
+    out = []
+
+    def rec(a, b, last, sw, acc):
+        if a == 0 and b == 0:
+            out.append(tuple(acc))
+            return
+        for w, left in ((0, a), (1, b)):
+            if not left:
+                continue
+            nsw = sw + (1 if last is not None and w != last else 0)
+            if nsw > max_switches:
+                continue
+            acc.append(w)
+            rec(a - (w == 0), b - (w == 1), w, nsw, acc)
+            acc.pop()
+    rec(n0, n1, None, 0, [])
+    return out
+
+
+def replay_interleave(case):
+    mn, mx = case['min'], case['max']
+    key = bytes.fromhex(case['key']['!hex'])
+    d1, d2 = bytes.fromhex(case['data']['!hex']), bytes.fromhex(case['data2']['!hex'])
+    L = len(d1)
+    p1 = [d1[:L // 3], d1[L // 3:2 * L // 3], d1[2 * L // 3:]]
+    p2 = [d2[:L // 2], d2[L // 2:]]
+    a1 = A.gclmulchunker(min_length=mn, max_length=mx)
+    a2 = a1 if case['same_object'] else A.gclmulchunker(min_length=mn, max_length=mx)
+    solo = [chunks_of(a1, p1, key), chunks_of(a2, p2, key)]
+    gens = [a1(iter(p1), params=key), a2(iter(p2), params=key)]
+    outs = [[], []]
+    for w in case['schedule']:
+        try:
+            outs[w].append(bytes(next(gens[w])))
+        except StopIteration:
+            pass
+    for w in (0, 1):
+        outs[w] += [bytes(c) for c in gens[w]]
+    return {'violations': ['two-streams-interleaved-on-one-thread'] if outs != solo else [],
+            'got': [[len(c) for c in o] for o in outs], 'solo': [[len(c) for c in o] for o in solo]}
+
+
 def replay(case):
+    if case.get('interleave'):
+        return replay_interleave(case)
     mn, mx = case['min'], case['max']
     key = bytes.fromhex(case['key']['!hex'])
     if 'buf' in case:
